@@ -161,8 +161,14 @@ func (w *World) CheckIndexes(tx *bbolt.Tx, m *Model) error {
 		// fk back-references (index wirings only)
 		switch sc.RefWiring {
 		case WireFkIndexNullable, WireFkIndex, WireFkIndexCascade:
-			target := w.Stores[sc.RefTo]
-			for tid := range m.Ents[sc.RefTo] {
+			var target boltz.Store = w.Stores[sc.RefTo]
+			if ks, isKid := w.Kids[sc.RefTo]; isKid {
+				target = ks
+			}
+			for tid := range m.Ents[m.BaseStore(sc.RefTo)] {
+				if !m.LinkEndExists(sc.RefTo, tid) {
+					continue
+				}
 				want := m.Referrers(sc.RefTo, tid)[sc.Name]
 				got := target.GetRelatedEntitiesIdList(tx, tid, sc.BackSym())
 				sort.Strings(got)
